@@ -1,5 +1,6 @@
 mod cmd_lin;
 mod cmd_backend;
+mod cmd_det;
 mod cmd_native;
 mod native;
 mod cmd_stages;
@@ -93,6 +94,8 @@ fn main() {
         }
         "c10-x86" => cmd_backend::cmd_c10("x86", num(2, 1), num(3, 0) as usize, &mut *out, &args[5.min(args.len())..]),
         "native-x86" => cmd_native::cmd_native_x86(num(2, 1), num(3, 0) as usize, &mut *out, &args[5.min(args.len())..]),
+        "stages-text" => { cmd_det::cmd_stages_text(arg(2)); return; }
+        "determinism" => cmd_det::cmd_determinism(num(2, 1), num(3, 0) as usize, &mut *out, &args[5.min(args.len())..]),
         "pm" => cmd_pm(num(2, 1), num(3, 100) as usize, &mut *out),
         "lin-show" => { cmd_lin::cmd_lin_show(num(2, 1)); return; }
         "lin" => cmd_lin::cmd_lin(num(2, 1), num(3, 100) as usize, &mut *out, args.get(5..).unwrap_or(&[])),
